@@ -271,6 +271,7 @@ static void run_case(fcase *c, long idx) {
         /* ---- C09 */
         if (c->has_n) {
             K[K_C09]++; if (t == 0 && di == 0) K[K_C09N]++;
+            if (!strcmp(g_prop, "C09") || !strcmp(g_prop, "ALL")) { char b[260]; snprintf(b, sizeof b, "n;%s;%.200s", TN[t], c->fmt); distinct_add(hash_str(b)); }
             int stored = 0; for (int i = 0; i < c->n_cnt; i++) if (SENT[i] != POISON) stored = 1;
             if (stored) { snprintf(obs, sizeof obs, "the %%n target was written (sentinel %#llx)", (unsigned long long)SENT[0]); vio("C09", c, t, idx, dmax, "n-directive-executed", "stored-through-argument", obs); }
             if (ret >= 0 || hc == 0) { snprintf(obs, sizeof obs, "returned %d with %d handler invocations for a format containing a %%n directive", ret, hc); vio("C09", c, t, idx, dmax, "n-format-not-rejected", ret >= 0 ? "success-returned" : "no-handler", obs); }
@@ -291,7 +292,7 @@ static void run_case(fcase *c, long idx) {
         }
         /* ---- C11 */
         K[K_C11]++;
-        {   char b[200]; snprintf(b, sizeof b, "%s;%s;%s;%d", TN[t], c->cls, fitc, ret < 0 ? -1 : 0); distinct_add(hash_str(b)); }
+        if (strcmp(g_prop, "C09")) { char b[200]; snprintf(b, sizeof b, "%s;%s;%s;%d", TN[t], c->cls, fitc, ret < 0 ? -1 : 0); distinct_add(hash_str(b)); }
         if (c->invalid_arg == 2) { if (ret >= 0 && ret != reflen && fits) { snprintf(obs, sizeof obs, "returned %d, libc counts %d", ret, reflen); vio("C11", c, t, idx, dmax, "count-differs", c->cls, obs); } continue; }
         if (fits) {
             if (ret < 0) { snprintf(obs, sizeof obs, "failed with %s although libc's text '%.60s' (%d chars) fits in dmax=%zu", errname(-ret), ref, reflen, dmax); vio("C11", c, t, idx, dmax, "fails-although-text-fits", c->rc[0] ? c->rc : c->cls, obs); }
